@@ -7,3 +7,15 @@ package goverter
 //@ func writeFiles
 //@   props C09 C15 C17
 //@   maprange 1 unordered-result paths
+
+// ---- C17: generate everything in memory, write only after every converter succeeded ----
+//@ func GenerateConverters
+//@   props C17 C15
+//@   requires c != nil
+//@   ensures true
+//@   at call writeFiles#1 assert err == nil
+
+//@ func generateConvertersRaw
+//@   props C17 C16
+//@   requires c != nil
+//@   ensures true
